@@ -273,18 +273,32 @@ func namedVhosts(doc obj) {
 // (the repository's TestClusterConfigWithSep), which directory mode cannot use as file names as they are - the dump
 // writes them under a sanitised name and clears stale files by name.
 func slashNames(rt *rapid.T, doc obj) (n int) {
+	long := 0
+	defer func() {
+		if long > 0 {
+			ev.Class(partDir, "name-around-the-file-name-limit")
+		}
+	}()
 	rename := func(o obj) {
 		name, _ := o["name"].(string)
 		if name == "" || strings.Contains(name, "/") {
 			return
 		}
-		switch rapid.IntRange(0, 5).Draw(rt, "slashName") {
+		switch rapid.IntRange(0, 7).Draw(rt, "slashName") {
 		case 0:
 			o["name"] = "ns/" + name
 			n++
 		case 1:
 			o["name"] = "a/b/" + name
 			n++
+		case 2:
+			// a long name around the file-name limit of directory mode (v2.MaxFilePath = 128): the dump cuts the file
+			// name, the name inside the file stays whole; the unique part comes first, so cut names stay distinct
+			want := rapid.SampledFrom([]int{120, 123, 124, 127, 128, 129, 160}).Draw(rt, "longNameLen")
+			if len(name) < want {
+				o["name"] = name + "." + strings.Repeat("l", want-len(name)-1)
+				long++
+			}
 		}
 	}
 	for _, s := range asArr(doc["servers"]) {
